@@ -19,7 +19,7 @@ RULE = (
 )
 ASSUMPTIONS = ["frozen Saenger / donor / Zirbel tables in vmon/oracles/g3d.py", "residue order = (chain, number, insertion code or ' ')"]
 REQUIRED_MONITORS = ["annotator.find_pairs", "annotator.find_stackings"]
-REQUIRED_CLAUSES = ["lists.no-duplicate-pair", "lists.pair-lower-first", "lists.pairs-sorted", "lists.saenger-table", "lists.bph-donor-contact-and-class",
+REQUIRED_CLAUSES = ["lists.structure2d-carries-the-annotation-unchanged", "lists.no-duplicate-pair", "lists.pair-lower-first", "lists.pairs-sorted", "lists.saenger-table", "lists.bph-donor-contact-and-class",
                     "lists.br-donor-contact-and-class", "lists.bph-one-class-per-pair", "lists.stackings-sorted", "lists.participants-in-model", "files.csv-equals-lists", "files.json-equals-lists"]
 LANDMARKS = {
     "merge-3-5": ("merge_and_clean_bph_br", "bphs_brs.add(4)"),
@@ -67,6 +67,17 @@ def _files(case, rec):
         rec.undecided("files.csv-equals-lists", f"extract_secondary_structure raised {type(e).__name__}")
         return
     bi = s2d.baseInteractions
+    # the lists carried by the Structure2D (after the 2D mapping has used them) must still be
+    # the annotation: same content and order as a separately computed one
+    try:
+        fresh = annotator.extract_base_interactions(gen3d.load(case["file"]))
+        same = (list(bi.basePairs) == list(fresh.basePairs) and list(bi.stackings) == list(fresh.stackings)
+                and list(bi.basePhosphateInteractions) == list(fresh.basePhosphateInteractions) and list(bi.baseRiboseInteractions) == list(fresh.baseRiboseInteractions))
+        rec.check("lists.structure2d-carries-the-annotation-unchanged", same,
+                  lambda: {"file": case["file"], "first-pairs-in-structure2d": [f"{p.nt1.full_name}-{p.nt2.full_name} {p.lw.value}" for p in bi.basePairs[:6]],
+                           "first-pairs-annotation": [f"{p.nt1.full_name}-{p.nt2.full_name} {p.lw.value}" for p in fresh.basePairs[:6]]})
+    except Exception as e:
+        rec.undecided("lists.structure2d-carries-the-annotation-unchanged", type(e).__name__)
     d = tempfile.mkdtemp(prefix="vmon-c11-")
     try:
         pc, pj = os.path.join(d, "o.csv"), os.path.join(d, "o.json")
